@@ -12,6 +12,7 @@
 #define _GNU_SOURCE
 #include <config.h>
 #include <libast.h>
+#include <errno.h>
 #include "vh.h"
 
 static const char SMALL[6] = { 'a', 'b', '1', '2', '.', '-' };
@@ -100,6 +101,7 @@ static void init_priors(void)
     prior_a[2] = vh_heapstr("99999999--"); prior_b[2] = vh_heapstr("99999999-+");
 }
 static const int SCRIBBLE[3] = { 0x00, 0xff, 0x41 };
+static const int ERRNO_BEFORE[3] = { 0, ERANGE, EINTR };
 
 /* one direction, three evaluations under different leftover stack contents / prior calls; all answers must agree */
 static int eval3(const char *a, const char *b, uint64_t *dig)
@@ -110,6 +112,7 @@ static int eval3(const char *a, const char *b, uint64_t *dig)
         vh_stack_scribble(SCRIBBLE[k]);
         if (k != 2) (void) spiftool_version_compare((spif_charptr_t) prior_a[k], (spif_charptr_t) prior_b[k]);
         else { vh_stack_scribble(SCRIBBLE[k]); }
+        errno = ERRNO_BEFORE[k];            /* what an unrelated earlier library call may have left behind */
         r[k] = norm(spiftool_version_compare((spif_charptr_t) a, (spif_charptr_t) b), a, b);
         vh_evals(1);
         *dig = vh_mix(*dig, (uint64_t) (r[k] + 2));
